@@ -67,8 +67,9 @@ class Driver:
     def build_xlsx(self, spec, stored, overrides=None, name='book.xlsx', cycles=None,
                    strict=True):
         from pycel import ExcelCompiler
-        if strict and any('f' in c and stored.get(c['a']) is None for c in spec['cells']):
-            # a formula whose result is empty (=A1:A3 over a blank cell) or unknown: a file
+        if strict and any('f' in c and stored.get(c['a']) in (None, '') for c in spec['cells']):
+            # a formula whose result is empty (=A1:A3 over a blank cell), the empty text (which
+            # openpyxl reads back as no value at all) or unknown: a file
             # written by Excel would carry a cached value for it, ours would not while the
             # dependants have one - not a consistent file.  Histories that write inputs fall
             # back to the workbook without stored results.
